@@ -173,6 +173,35 @@ theorem decodeImage_middle_reversed {R : Type} (rd : Int → List Bool → Res R
     simp only [OneDScan.decode, hscan]
     exact hfetch b'
 
+/-- the first attempt on the middle row fails with something that is not a reader exception: returned at once -/
+theorem decodeImage_middle_abort {R : Type} (rd : Int → List Bool → Res R) (b : Bitmap) (th : Bool)
+    (hh : 0 < b.src.h) (bits : List Bool) (hbits : b.getBlackRow (b.src.h / 2) = .ok bits)
+    (e : Fault) (he : OneDScan.isReaderException e = false)
+    (hfail : rd ((b.src.h / 2 : Nat) : Int) bits = .error e) :
+    decodeImage rd b th = .error e := by
+  have hatt0 : attempt rd b (b.src.h / 2) false = .error e := by
+    simp only [attempt, hbits, Bool.false_eq_true, if_false]; exact hfail
+  have hdec0 : decOf rd b (b.src.h / 2) false = .error e := by simp [decOf, hatt0]
+  have hscan : OneDScan.doDecode b.src.w b.src.h th (blackOf b) (decOf rd b) = .error e := by
+    unfold OneDScan.doDecode
+    have hml : OneDScan.maxLinesOf b.src.h th = (OneDScan.maxLinesOf b.src.h th - 1) + 1 := by
+      unfold OneDScan.maxLinesOf; split <;> omega
+    rw [hml]
+    simp only [OneDScan.scanLoop, OneDScan.rowAt]
+    have hr : ((b.src.h / 2 : Nat) : Int) + ((OneDScan.rowStepOf b.src.h th : Nat) : Int) * (((0 + 1) / 2 : Nat) : Int)
+        = ((b.src.h / 2 : Nat) : Int) := by simp
+    have hin : ¬ (((b.src.h / 2 : Nat) : Int) < 0 ∨ ((b.src.h / 2 : Nat) : Int) ≥ (b.src.h : Int)) := by omega
+    simp only [if_true, hr, hin, if_false, Int.toNat_natCast, blackOf_ok b _ bits hbits, Bool.not_true,
+      Bool.false_eq_true, OneDScan.scanRow, hdec0, he, Bool.not_false]
+  have hne : e ≠ .notFound := by intro h; subst h; simp [OneDScan.isReaderException] at he
+  unfold decodeImage
+  simp only []
+  cases b.rotate with
+  | error e' =>
+    simp only [hscan]
+  | ok b' =>
+    simp only [OneDScan.decode, hscan, hne, ne_eq, not_false_eq_true, if_true]
+
 /-! ## `readImage` is the scan over `rowRead` -/
 
 def Found.map {R S : Type} (g : R → S) (f : Found R) : Found S := ⟨g f.res, f.row, f.reversed, f.rotated, f.orientation⟩
